@@ -25,6 +25,10 @@ CHECKS = {
                 text='compositional: (D) Ruleset::get_match executed from MIR on a symbolic ruleset with rules of all five kinds (symbolic enabled flags; condition and matcher verdicts arbitrary) - z3 decides that the first enabled rule whose conditions hold is returned, in the order override, content, room, sender, underride, nothing for own events, and which value/mode each kind hands to the matcher; (P) PushCondition::applies for event_match, room_member_count, sender_notification_permission, event_property_is, event_property_contains on a symbolic flattened event and room context against the specification; (W) matches_word for literal patterns on all printable-ASCII values <= 6 bytes / patterns <= 2 bytes against the word-boundary definition',
                 note='partial claim: the glob engine (wildmatch) and the regex generated for wildcard word patterns are library code (abstracted to arbitrary verdicts), FlattenedJson::from_raw (serde_json) is below the seam, non-ASCII text is outside; BTreeMap/IndexSet are library models',
                 ref='DESIGN.md §4 C12'),
+    'C09': dict(engine='mirsym', technique=MIRSYM,
+                text='(a) auth_types_for_event executed from MIR on the symbolic events of the C08 world (every kind, membership, absent/ok/malformed content fields, third-party-invite token absent/string/non-string) per room version: z3 decides selected pairs == the specification\'s selection, no duplicates, errors only where the selection is undefined; (b) on every explored path of auth_check every (type, state_key) handed to fetch_state is among the pairs selected for that event, which (state = uninterpreted function of the key, auth_check deterministic) is non-interference of all other state entries',
+                note='trusted: as C08; read-set containment is decided on the well-formed-state world of C08; iterative_auth_check building its state from the selection is a call-graph fact, not decided; quick tier: one room version per distinct AuthorizationRules constant',
+                ref='DESIGN.md §4 C09'),
     'C10': dict(engine='mirsym', technique=MIRSYM,
                 text='bounded symbolic execution of every validator of ruma-identifiers-validation over every UTF-8 string up to the stated byte bounds (300 bytes for identifiers, so the 255-byte limit and u8 index truncations are inside the bound); z3 decides panic-freedom, accept=>grammar, grammar=>accept, returned separator index',
                 note='trusted: MIR dump, library models (validated against the native build each run), grammar oracles in spec/idgrammar.py; compositional: server-name part proved separately for <= N_A bytes',
@@ -41,6 +45,10 @@ CHECKS = {
                 text='for every derive-/macro-generated string enum discovered in the MIR of ruma-common and ruma-events: symbolic execution of from/as_ref (to_cow_str) over every string <= 64 bytes; z3 decides the round trip modulo declared aliases; spellings compared with spec tables and an independent implementation of the rename rules',
                 note='trusted: MIR dump, library models; hand-written conversions and serde agreement are outside; T instantiated with &str',
                 ref='DESIGN.md §4 C19'),
+    'C20': dict(engine='mirsym', technique=MIRSYM,
+                text='RoomPowerLevels::{for_user, for_message, for_state, user_can_ban(_user), user_can_unban(_user), user_can_invite, user_can_kick(_user), user_can_redact_*, user_can_send_message/state, user_can_trigger_room_notification, user_can_change_user_power_level} executed from the MIR of ruma-events on a symbolic power-level configuration (every level in the JSON integer range, users/events entries present or absent); z3 compares each with the comparison the authorization rules (the oracle C08 ties auth_check to) make for the corresponding event from a joined member; defaults of RoomPowerLevelsEventContent::new() against the specification',
+                note='trusted: MIR dump, library models (BTreeMap with presence flags), spec/auth_rules.py; the target\'s membership preconditions of ban/kick/unban are those of the action; string-typed levels are a deserialization matter',
+                ref='DESIGN.md §4 C20'),
 }
 NA = {
     'C14': 'depends on html5ever\'s tokenizer/tree builder/serializer (third-party state machines over Rc<RefCell> DOM); not encodable with Kani or the MIR executor (DESIGN §4 C14)',
